@@ -246,7 +246,17 @@ def simulate(spec, progs=True):
     for pop in pops:
         for c, g in group.items():
             p = pars[g]
-            D = interp_linear(vfor(p["val"], pop), T[0]) * scale(p, pop) * (p.get("ts") or 1.0)
+            if p.get("fn"):
+                # a duration given by a function of other (databook) parameters and constants: the function value is the duration,
+                # whatever is entered in the databook for the duration itself
+                env = {"t": T[0], "dt": dt}
+                for nm in names_in(p["fn"]):
+                    if nm in pars:
+                        q = pars[nm]
+                        env[nm] = clip(q, data_value(q, pop, T[0]) * scale(q, pop))
+                D = clip(p, ev(ast.parse(p["fn"], mode="eval"), env) * scale(p, pop)) * (p.get("ts") or 1.0)
+            else:
+                D = interp_linear(vfor(p["val"], pop), T[0]) * scale(p, pop) * (p.get("ts") or 1.0)
             nb[(pop, c)] = max(1, nsteps(D / dt))
     tr_.nbins = nb
 
